@@ -23,6 +23,8 @@ def vjson_to_py(v):
     t = v["t"]
     if t == "int":
         return v["x"]
+    if t == "big":
+        return int(v["s"])
     if t == "nan":
         return "nan"
     if t == "none":
@@ -92,6 +94,8 @@ def values_equal(a, b):
         return b.matches(a)
     if isinstance(a, Ident):
         return a.matches(b)
+    if isinstance(a, int) and isinstance(b, int):
+        return int(a) == int(b)             # exact: 2**53 + 1 must not be confused with 2**53
     if isinstance(a, (bool, int, float)) and isinstance(b, (bool, int, float)):
         return float(a) == float(b)
     if isinstance(a, str) or isinstance(b, str):
@@ -101,6 +105,49 @@ def values_equal(a, b):
     if isinstance(a, dict) and isinstance(b, dict):
         return list(a.keys()) == list(b.keys()) and all(values_equal(a[k], b[k]) for k in a)
     return False
+
+
+# ------------------------------------------------------------------ ToList of an abstract (TLA+) layout, in Python
+def abstract_to_list(L):
+    """the abstraction function of AkLayout.tla re-stated in Python (used by finding matchers and L2 oracles)"""
+    c = L["c"]
+    if c == "Numpy":
+        return ["nan" if x == -777 else x for x in L["d"]]
+    if c == "Empty":
+        return []
+    if c == "Str":
+        return [bytes(L["d"][L["o"][k]:L["o"][k + 1]]).decode("latin-1") for k in range(len(L["o"]) - 1)]
+    if c == "Record":
+        cs = [abstract_to_list(x) for x in L["xs"]]
+        ks = [str(j) for j in range(len(cs))] if L.get("tuple") else L["names"]
+        return [{k: col[i] for k, col in zip(ks, cs)} for i in range(L["n"])]
+    if c == "Union":
+        cs = [abstract_to_list(x) for x in L["xs"]]
+        return [cs[t][i] for t, i in zip(L["t"], L["i"])]
+    x = abstract_to_list(L["x"])
+    if c == "Regular":
+        n = L["zl"] if L["size"] == 0 else len(x) // L["size"]
+        return [x[k * L["size"]:(k + 1) * L["size"]] for k in range(n)]
+    if c == "ListOffset":
+        return [x[L["o"][k]:L["o"][k + 1]] for k in range(len(L["o"]) - 1)]
+    if c == "List":
+        return [x[a:b] for a, b in zip(L["s"], L["e"])]
+    if c == "Indexed":
+        return [x[i] for i in L["i"]]
+    if c == "IndexedOption":
+        return [None if i < 0 else x[i] for i in L["i"]]
+    if c == "ByteMasked":
+        return [x[k] if (m != 0) == (L["vw"] != 0) else None for k, m in enumerate(L["m"])]
+    if c == "BitMasked":
+        out = []
+        for k in range(L["n"]):
+            byte = L["m"][k // 8]
+            sh = k % 8 if L["lsb"] else 7 - k % 8
+            out.append(x[k] if (((byte >> sh) & 1) != 0) == (L["vw"] != 0) else None)
+        return out
+    if c == "Unmasked":
+        return x
+    raise ValueError("abstract_to_list: " + c)
 
 
 # ------------------------------------------------------------------ layout instantiation
@@ -113,6 +160,10 @@ def instantiate(L, pick):
         if out["dt"] in ("f64", "f32"):
             out["d"] = ["nan" if x == -777 else x for x in L["d"]]
         return out
+    if c == "Str":
+        bs = L.get("bs", 0)
+        return {"c": "ListOffset", "w": pick(WIDTHS), "o": L["o"], "p": {"__array__": '"bytestring"' if bs else '"string"'},
+                "x": {"c": "Numpy", "dt": "u8", "d": L["d"], "p": {"__array__": '"byte"' if bs else '"char"'}}}
     if c in ("ListOffset", "List", "Indexed"):
         if "w" not in out:
             neg = any(x < 0 for k in ("o", "s", "e", "i") for x in L.get(k, []))
@@ -226,7 +277,11 @@ def steps_for(case, pick):
         return [build, b2, op, {"op": "digest", "src": "a"}]
     elif act == "setfield":
         b2 = {"op": "build", "dst": "b", "layout": instantiate(case["aux"], pick), "want": ["json", "type", "valid", "digest"]}
-        op = {"op": "setitem_field", "src": "b", "where": a["key"], "what": "a", "dst": "r", "want": ["json", "type", "valid"]}
+        op = {"op": "setitem_field", "src": "b", "what": "a", "dst": "r", "want": ["json", "type", "valid"]}
+        if "where" in a:
+            op["wherei"] = a["where"]
+        else:
+            op["where"] = a["key"]
         return [build, b2, op, {"op": "digest", "src": "a"}]
     elif act == "samevalue":
         o = a["o"]
@@ -324,6 +379,8 @@ def judge(case, res):
         else:
             if "json_exc" in r:
                 return "tojson raised: " + r["json_exc"]
+            if r.get("json_skipped"):
+                return "result fails validity: %r" % r.get("valid")
             try:
                 got = json.loads(r["json"])
             except Exception as e:
@@ -424,7 +481,7 @@ def _chunk_task(args):
             fails.append((idx, case, by_id[idx], None, "CRASH: " + crashed[idx]))
             continue
         res = answers.get(idx)
-        why = jd(case, res)
+        why = jd(case, res, by_id[idx]["steps"]) if getattr(jd, "wants_steps", False) else jd(case, res)
         if why is not None:
             fails.append((idx, case, by_id[idx], res, why))
         else:
@@ -469,7 +526,7 @@ def _file_chunks(path, chunk, max_cases=None):
 
 def replay_cases(worker, cases, seed=0, jobs=16, chunk=1500, env=None,
                  translate=("replay", "steps_for"), judge_fn=("replay", "judge"), max_fail_keep=100000,
-                 max_cases=None, record=None):
+                 max_cases=None, record=None, sample_cases=None):
     """cases: path of an ndjson file (preferred: parsed in the worker processes) or an iterable of case dicts.
     Returns (stats, failures)."""
     if isinstance(cases, str):
@@ -486,6 +543,12 @@ def replay_cases(worker, cases, seed=0, jobs=16, chunk=1500, env=None,
                 cur = []
         if cur:
             chunks.append(cur)
+    if sample_cases and len(chunks) * chunk > sample_cases:
+        # evenly spaced chunks (seeded phase), so that all BFS levels of the exploration are represented
+        want = max(1, sample_cases // chunk)
+        step = len(chunks) / float(want)
+        phase = (seed % 7) / 7.0
+        chunks = [chunks[min(len(chunks) - 1, int((k + phase) * step))] for k in range(want)]
     total = {"n": 0, "ok": 0, "err_expected": 0}
     fails = []
     nfail = 0
@@ -707,6 +770,8 @@ def json_text(toks, pick):
             parts.append("true")
         elif k == "int":
             parts.append(str(t["x"]))
+        elif k == "bigint":
+            parts.append(t["s"])
         elif k == "real":
             parts.append(repr(t["n"] / t["d"]))
         elif k == "str":
@@ -729,7 +794,7 @@ def json_text(toks, pick):
 def steps_json(case, pick):
     text = json_text(case["toks"], pick)
     mode = pick([0, 0, 1])
-    st = {"op": "json_parse", "text": text, "initial": pick([1, 2, 1024]), "dst": "r", "want": ["json", "type", "valid"]}
+    st = {"op": "json_parse", "text": text, "initial": pick([1, 2, 1024]), "dst": "r", "want": ["json", "type", "valid", "json_even_if_invalid"]}
     if mode == 1:
         st["file"] = 1
         st["buffersize"] = pick([1, 2, 3, 7, 64, 65536])
